@@ -218,7 +218,8 @@ ATOMS: dict[str, str] = {
     # generics
     "Inv_A": "Inv[A]", "Inv_B": "Inv[B]", "Inv_Any": "Inv[Any]", "InvB": "InvB",
     "Co_A": "Co[A]", "Co_B": "Co[B]", "Co_D": "Co[D]", "CoSub_B": "CoSub[B]", "CoA": "CoA",
-    "Contra_A": "Contra[A]", "Contra_B": "Contra[B]", "Two_B_A": "Two[B, A]", "Two_A_B": "Two[A, B]", "Mixed": "Mixed",
+    "Contra_A": "Contra[A]", "Contra_B": "Contra[B]", "Contra_int": "Contra[int]", "Contra_float": "Contra[float]",
+    "Co_int": "Co[int]", "Co_float": "Co[float]", "Inv_int": "Inv[int]", "Inv_float": "Inv[float]", "Two_B_A": "Two[B, A]", "Two_A_B": "Two[A, B]", "Mixed": "Mixed",
     "Auto_A": "Auto[A]", "Auto_B": "Auto[B]", "AutoInv_A": "AutoInv[A]", "AutoInv_B": "AutoInv[B]",
     "Var_int_str": "Var[int, str]", "Var_int": "Var[int]", "Var_ints": "Var[Unpack[tuple[int, ...]]]",
     "list_A": "list[A]", "list_B": "list[B]", "list_int": "list[int]", "list_Any": "list[Any]",
@@ -249,6 +250,8 @@ ATOMS: dict[str, str] = {
     "TD1": "TD1", "TD2": "TD2", "TD2b": "TD2b", "TDopt": "TDopt", "TDro": "TDro", "TDroA": "TDroA", "TDroB": "TDroB",
     "TDmix": "TDmix", "TDG_int": "TDG[int]", "TDG_bool": "TDG[bool]",
     # callables
+    "call_NT_A": "Callable[[NT], A]", "call_NTA_A": "Callable[[NTA], A]", "Contra_call_ell": "Contra[Callable[..., object]]",
+    "Contra_call_A": "Contra[Callable[[A], B]]", "call_str_str": "Callable[[str], str]",
     "call_none": "Callable[[], None]", "call_A_A": "Callable[[A], A]", "call_B_A": "Callable[[B], A]",
     "call_A_B": "Callable[[A], B]", "call_A_B_none": "Callable[[A, B], None]", "call_ell_A": "Callable[..., A]",
     "call_ell_Any": "Callable[..., Any]", "call_int_str": "Callable[[int], str]", "call_ret_call": "Callable[[], Callable[[A], B]]",
@@ -256,7 +259,7 @@ ATOMS: dict[str, str] = {
     "Type_A": "Type[A]", "Type_B": "Type[B]", "Type_D": "Type[D]", "Type_E": "Type[E]", "Type_Any": "Type[Any]",
     "Type_object": "Type[object]", "Type_Color": "Type[Color]", "Type_HasX": "Type[HasX]", "Type_ImplX": "Type[ImplX]",
     "Type_int": "Type[int]", "Type_NT": "Type[NT]", "Type_A_or_E": "Type[Union[A, E]]", "Type_F": "Type[F]",
-    "Type_Inv_A": "Type[Inv[A]]", "Type_None": "Type[None]", "Type_TD1": "Type[TD1]", "Type_tuple_A_B": "Type[tuple[A, B]]",
+    "Type_Inv_A": "Type[Inv[A]]", "Type_None": "Type[None]", "Type_TD1": "Type[TD1]", "Type_tuple_A_B": "Type[tuple[A, B]]", "Type_Never": "Type[Never]", "Type_bool": "Type[bool]",
     # unions
     "A_or_E": "Union[A, E]", "B_or_E": "Union[B, E]", "Opt_A": "Optional[A]", "Opt_B": "Optional[B]",
     "int_or_str": "Union[int, str]", "int_or_None": "Optional[int]", "B_or_C": "Union[B, C]", "A_or_Any": "Union[A, Any]",
